@@ -90,7 +90,7 @@ def parse_tlc_output(out, res):
         res.violated = re.search(r'Action property (\S+) is violated', out).group(1)
     elif 'Temporal properties were violated' in out:
         res.status = 'temporal'
-    elif re.search(r'The postcondition .* violated|Postcondition .* violated|is violated by the', out, re.I):
+    elif re.search(r'Postcondition \S+ .*is false|The postcondition .* violated|Postcondition .* violated', out, re.I):
         res.status = 'postcondition'
     elif 'Finished computing initial states' in out and 'Error' not in out and 'simulation' in out.lower():
         res.status = 'ok'
